@@ -38,7 +38,7 @@ def dotted(node):
     return None
 
 
-def src(node, maxlen=160):
+def src(node, maxlen=2000):
     try:
         s = ast.unparse(node)
     except Exception:  # pragma: no cover
@@ -192,6 +192,30 @@ class ClassInfo:
         self.mro = None
 
 
+_KNOWN_NAMES = None
+
+
+def _names_known_to_rules():
+    """identifiers that occur as string constants in the rule sources: methods the rules look up by name"""
+    global _KNOWN_NAMES
+    if _KNOWN_NAMES is None:
+        import re
+        res = set()
+        here = os.path.dirname(os.path.abspath(__file__))
+        files = [os.path.join(here, f) for f in os.listdir(here) if f.endswith('.py')]
+        files += [os.path.join(here, 'rules', f) for f in os.listdir(os.path.join(here, 'rules')) if f.endswith('.py')]
+        for path in files:
+            try:
+                tree = ast.parse(open(path, encoding='utf-8').read())
+            except (OSError, SyntaxError):
+                continue
+            for n in ast.walk(tree):
+                if isinstance(n, ast.Constant) and isinstance(n.value, str):
+                    res.update(re.findall(r'[A-Za-z_][A-Za-z0-9_]*', n.value))
+        _KNOWN_NAMES = res
+    return _KNOWN_NAMES
+
+
 class FuncInfo:
     def __init__(self, qualname, node, module, cls, parent):
         self.qualname = qualname
@@ -225,6 +249,198 @@ class Model:
             c.bases = [self._resolve_base(c, b) for b in c.base_exprs]
         self._mro_cache = {}
         self._subclasses = None
+        self.inlined = {}       # qualname of the caller -> [qualname of the expanded helper]
+        if not os.environ.get('VERIF_NO_INLINE'):
+            self._inline_helpers()
+
+    # -- single-use private helper methods are analysed in place
+    def _inline_helpers(self):
+        """`self._helper(...)` where _helper is a private method of the same class hierarchy with exactly ONE call site in
+        the whole model (the shape an 'extract method' refactoring produces) is expanded in the caller's tree: the
+        caller's FuncInfo gets a private copy of its body with the helper's statements in place of the call.  The helper
+        itself stays available under its own name.  Only straightforward shapes are expanded (no early return, no
+        generator, no *args); everything else is left as a call."""
+        uses = {}
+        known = _names_known_to_rules()
+        for fi in self.functions.values():
+            for n in ast.walk(fi.node):
+                if isinstance(n, ast.Attribute) and n.attr.startswith('_') and not n.attr.endswith('__'):
+                    uses[n.attr] = uses.get(n.attr, 0) + 1
+        for rnd in range(2):
+            changed = False
+            for fi in list(self.functions.values()):
+                if fi.cls is None or fi.parent is not None:
+                    continue
+                cands = self._inline_candidates(fi, uses, known)
+                if cands:
+                    self._expand(fi, cands)
+                    changed = True
+            if not changed:
+                break
+
+    def is_inlined(self, fi):
+        """fi is a single-use helper whose body is analysed in place of its (only) call"""
+        return any(fi.qualname in v for v in self.inlined.values())
+
+    def _helper_for(self, fi, call):
+        f = call.func
+        if not (isinstance(f, ast.Attribute) and dotted(f.value) == 'self'):
+            return None
+        for q in self.mro(fi.cls.qualname) + self.subclasses(fi.cls.qualname):
+            ci = self.classes.get(q)
+            if ci and f.attr in ci.methods and ci.methods[f.attr] is not fi:
+                return ci.methods[f.attr]
+        return None
+
+    def _inline_candidates(self, fi, uses, known):
+        res = []
+        for st in ast.walk(fi.node):
+            if isinstance(st, ast.Expr) and isinstance(st.value, ast.Call):
+                call = st.value
+            elif isinstance(st, (ast.Assign, ast.Return)) and isinstance(st.value, ast.Call):
+                call = st.value
+            else:
+                continue
+            f = call.func
+            if not (isinstance(f, ast.Attribute) and f.attr.startswith('_') and not f.attr.endswith('__') and uses.get(f.attr) == 1):
+                continue
+            if f.attr in known or f.attr.lstrip('_') in known:
+                continue    # a unit the rules address by name is analysed as a unit
+            # the statement has to belong to fi itself, not to a nested def
+            owner = st
+            while owner is not None and not isinstance(owner, FUNC_TYPES):
+                owner = getattr(owner, 'parent', None)
+            if owner is not fi.node:
+                continue
+            h = self._helper_for(fi, call)
+            if h is None or not isinstance(h.node, ast.FunctionDef):
+                continue
+            binding = self._bind(h.node, call)
+            if binding is None:
+                continue
+            body = [x for x in h.node.body]
+            if body and isinstance(body[0], ast.Expr) and isinstance(body[0].value, ast.Constant) and isinstance(body[0].value.value, str):
+                body = body[1:]
+            if not body:
+                continue
+            rets = [n for n in walk_local(h.node) if isinstance(n, ast.Return)]
+            if any(isinstance(n, (ast.Yield, ast.YieldFrom)) for n in walk_local(h.node)):
+                continue
+            if len(rets) > 1 or (rets and rets[0] is not body[-1]):
+                continue
+            res.append((st, call, h, binding, body))
+        return res
+
+    @staticmethod
+    def _bind(hnode, call):
+        """parameter name -> argument expression (None when the shape is not simple)"""
+        a = hnode.args
+        if a.vararg or a.kwarg or a.kwonlyargs or a.posonlyargs:
+            return None
+        decos = {dotted(d) for d in hnode.decorator_list}
+        if decos - {'staticmethod'}:
+            return None
+        params = [x.arg for x in a.args]
+        if 'staticmethod' not in decos:
+            params = params[1:]
+        if any(isinstance(x, ast.Starred) for x in call.args) or any(k.arg is None for k in call.keywords) or len(call.args) > len(params):
+            return None
+        res = dict(zip(params, call.args))
+        for k in call.keywords:
+            if k.arg not in params or k.arg in res:
+                return None
+            res[k.arg] = k.value
+        defaults = dict(zip(reversed(params), reversed(a.defaults)))
+        for prm in params:
+            if prm not in res:
+                if prm not in defaults:
+                    return None
+                res[prm] = defaults[prm]
+        return res
+
+    def _expand(self, fi, cands):
+        mapping = {}
+
+        def clone(node):
+            if isinstance(node, ast.AST):
+                new = node.__class__()
+                for f in node._fields:
+                    if hasattr(node, f):
+                        setattr(new, f, clone(getattr(node, f)))
+                for a in node._attributes:
+                    if hasattr(node, a):
+                        setattr(new, a, getattr(node, a))
+                mapping[id(node)] = new
+                return new
+            if isinstance(node, list):
+                return [clone(x) for x in node]
+            return node
+
+        todo = {id(st): (st, call, h, binding, body) for st, call, h, binding, body in cands}
+        new_root = clone(fi.node)
+
+        def rewrite(lst):
+            out = []
+            for st in lst:
+                orig = next((o for o in todo.values() if mapping.get(id(o[0])) is st), None)
+                if orig is None:
+                    for field in ('body', 'orelse', 'finalbody'):
+                        sub = getattr(st, field, None)
+                        if isinstance(sub, list) and sub and isinstance(sub[0], ast.stmt) and not isinstance(st, FUNC_TYPES + (ast.ClassDef,)):
+                            setattr(st, field, rewrite(sub))
+                    for h in getattr(st, 'handlers', []):
+                        h.body = rewrite(h.body)
+                    for c in getattr(st, 'cases', []):
+                        c.body = rewrite(c.body)
+                    out.append(st)
+                    continue
+                ost, call, helper, binding, body = orig
+                for prm, arg in binding.items():
+                    if isinstance(arg, ast.Name) and arg.id == prm:
+                        continue
+                    a = ast.Assign(targets=[ast.Name(id=prm, ctx=ast.Store())], value=clone(arg), type_comment=None)
+                    ast.copy_location(a, ost)
+                    ast.fix_missing_locations(a)
+                    out.append(a)
+                stmts = [clone(x) for x in body]
+                last = stmts[-1]
+                if isinstance(last, ast.Return):
+                    val = last.value if last.value is not None else ast.copy_location(ast.Constant(value=None), last)
+                    if isinstance(ost, ast.Assign):
+                        rep = ast.Assign(targets=[clone(t) for t in ost.targets], value=val, type_comment=None)
+                    elif isinstance(ost, ast.Return):
+                        rep = ast.Return(value=val)
+                    else:
+                        rep = ast.Expr(value=val)
+                    ast.copy_location(rep, last)
+                    stmts[-1] = rep
+                elif isinstance(ost, ast.Assign):
+                    rep = ast.Assign(targets=[clone(t) for t in ost.targets], value=ast.Constant(value=None), type_comment=None)
+                    ast.copy_location(rep, ost)
+                    ast.fix_missing_locations(rep)
+                    stmts.append(rep)
+                elif isinstance(ost, ast.Return):
+                    rep = ast.Return(value=None)
+                    ast.copy_location(rep, ost)
+                    stmts.append(rep)
+                out.extend(stmts)
+                self.inlined.setdefault(fi.qualname, []).append(helper.qualname)
+            return out
+
+        new_root.body = rewrite(new_root.body)
+        set_parents(new_root)
+        new_root.parent = getattr(fi.node, 'parent', None)
+        new_root.finfo = fi
+        fi.node = new_root
+
+        def fix_nested(f):
+            for lst in f.nested.values():
+                for nf in lst:
+                    if id(nf.node) in mapping:
+                        nf.node = mapping[id(nf.node)]
+                        nf.node.finfo = nf
+                    fix_nested(nf)
+        fix_nested(fi)
 
     # -- loading
     def _load_tree(self, top):
